@@ -158,6 +158,7 @@ class SessionBuilder:
         self.teals: List[Tuple[str, str]] = []  # (handle, contract)
         self.tealers: List[Tuple[str, str, List[str]]] = []  # (handle, contract, dets)
         self.uid = 0
+        self.durable = False  # the session keeps its export directory between CLI runs
 
     def add(self, op: Dict[str, Any]) -> Dict[str, Any]:
         op["uid"] = self.uid
@@ -268,7 +269,7 @@ class SessionBuilder:
                 # text mode writes one DOT file per reported path: small contracts, one detector
                 argv = ["detect", "--contracts", "{C}", "--detectors", rng.choice(self.ctx.detectors)]
             else:
-                if rng.random() < 0.25:
+                if rng.random() < (0.6 if self.durable else 0.25):
                     argv[1] = "out.json"
                 if rng.random() < 0.5:
                     sub = _det_subset(rng, self.ctx.detectors)[: rng.randrange(1, 5)]
@@ -281,11 +282,14 @@ class SessionBuilder:
                     )
             if rng.random() < 0.25:
                 argv += ["--filter-paths", rng.choice(["0 -> 1", " 2$", "^0 -> 2", "3 -> ", "1", "->.*->", "("])]
+            if rng.random() < 0.06:
+                argv = ["--debug"] + argv  # hidden flag: logger levels, debug-only code paths
         op: Dict[str, Any] = {"op": "cli", "c": cid, "argv": argv, "s1": s1}
         if files:
             op["files"] = files
-        if rng.random() < 0.25:
-            # a scratch file name used again for another contract (edit-and-reanalyse loops)
+        if rng.random() < (0.6 if self.durable else 0.25):
+            # a scratch file name used again for another contract (edit-and-reanalyse loops); with
+            # a durable export directory the later run finds the earlier run's report in its place
             op["fname"] = "contract.teal"
         self.add(op)
         if argv[:1] != ["--json"] and "--contracts" not in argv and rng.random() < 0.7:
@@ -380,6 +384,7 @@ def gen_c14_session(seed: int, index: int, ctx: GenCtx, faulty: bool, max_ops: i
     fault_p = rng.choice([0.1, 0.2, 0.3]) if faulty else 0.0
     nops = rng.randrange(3, max_ops + 1)
     keep_export_dir = rng.random() < 0.3  # the export directory outlives the runs of this session
+    b.durable = keep_export_dir
     if rng.random() < 0.3:
         b.gc_knob()
     while len(b.ops) < nops:
